@@ -96,6 +96,12 @@ type Case struct {
 	// accept (accept.go): what the listener's Accept calls return, in order: "c" = a connection (a probe request
 	// on a fresh connection) | the name of an error (acceptErrs); What = "rlimit": real descriptor exhaustion
 	Accept []string `json:"accept,omitempty"`
+	// client cases of the header-field dimension (fields.go): Auth = "basic": the proxy instance is started with
+	// --basic-auth (and --credentials for the probe origin), the well-behaved preamble and the sentinel carry valid
+	// credentials; PAHex = the value Header.Get("Proxy-Authorization") returns for the first request of the input
+	// ("_" = absent or empty; "" = the basic-auth decision of this case is not judged); Method: GET | POST | CONNECT
+	Auth  string `json:"auth,omitempty"`
+	PAHex string `json:"pa_hex,omitempty"`
 }
 
 func (c *Case) head() []byte { return core.MustUnHex(orEmpty(c.HeadHex)) }
@@ -484,6 +490,8 @@ func generate(r *core.Rand, quick bool) []*Case {
 	genReplies(g, quick)
 	// G. hostile client input
 	genClient(g, quick)
+	// G'. hostile VALUES of every header field the proxy itself parses, on proxies configured so that the parser runs (fields.go)
+	genFields(g, quick)
 	// H. consecutive failed exchanges on one connection
 	for _, n := range []int{5, 6, 8, 12} {
 		g.add(&Case{Kind: "repeat", Via: core.Pick(r, []string{"plain", "https", "mitm"}), N: n})
